@@ -732,19 +732,40 @@ def rule_hc7(prog):
                        identity_keyed_persistent_tables=[h[1] for h in hits])
             # an entry that also holds the node keeps it alive: its
             # identity cannot be reused while the entry exists
-            idargs = {m.args[0].id for m in ast.walk(f.node)
-                      if isinstance(m, ast.Call) and
-                      isinstance(m.func, ast.Name) and m.func.id == 'id' and
-                      m.args and isinstance(m.args[0], ast.Name)}
+            def id_names(e):
+                out = set()
+                for m in ast.walk(e):
+                    if isinstance(m, ast.Call) and \
+                            isinstance(m.func, ast.Name) and \
+                            m.func.id == 'id' and m.args and \
+                            isinstance(m.args[0], ast.Name):
+                        out.add(m.args[0].id)
+                return out
+            local_defs = {}
+            for a in ast.walk(f.node):
+                if isinstance(a, ast.Assign) and len(a.targets) == 1 and \
+                        isinstance(a.targets[0], ast.Name):
+                    local_defs.setdefault(a.targets[0].id, []).append(a.value)
             for (line, table, key, why) in hits:
-                pinned = any(
-                    isinstance(a, ast.Assign) and any(
-                        isinstance(t, ast.Subscript) and
-                        ast.unparse(t.value) == table for t in a.targets) and
-                    any(isinstance(m, ast.Name) and m.id in idargs
-                        for m in ([a.value] + list(getattr(a.value, 'elts',
-                                                           []))))
-                    for a in ast.walk(f.node))
+                # pinned: the entry stored under id(x) holds x itself
+                pinned = False
+                for a in ast.walk(f.node):
+                    if not isinstance(a, ast.Assign):
+                        continue
+                    for t in a.targets:
+                        if not (isinstance(t, ast.Subscript) and
+                                ast.unparse(t.value) == table):
+                            continue
+                        ks = id_names(t.slice)
+                        for m in [t.slice] + list(getattr(t.slice, 'elts',
+                                                          [])):
+                            if isinstance(m, ast.Name):     # key = (id(x),..)
+                                for d in local_defs.get(m.id, []):
+                                    ks |= id_names(d)
+                        tops = [a.value] + list(getattr(a.value, 'elts', []))
+                        if any(isinstance(m, ast.Name) and m.id in ks
+                               for m in tops):
+                            pinned = True
                 if pinned:
                     raise Inconclusive(
                         'R-HC-7', '%s keys `%s` by id() but the entries hold '
@@ -816,5 +837,16 @@ def run(prog, tier, seed):
                 PROP, 'operations must return the canonical node of the '
                 'right function')
     r7 = T(rule_hc7, prog)
+    # "obtained by parsing": the reader must build the function it is given
+    from . import c18
+
+    pf = T(c18.parser_functions, prog)
+    if pf is not None:
+        rr1, presults = T(c18.rule_bp1, prog, pf[1], _n=2)
+        if presults is not None:
+            dep = dep + adopt(T.results(
+                rr1, T(c18.rule_bp2, prog, presults),
+                T(c18.rule_bp2b, prog, presults)), PROP,
+                'parsing denotes the function that is written')
     return T.results(r1, r2, r3, r4, r5, r7) + dep, expl, assumptions, \
         T.extra()
